@@ -22,6 +22,8 @@ Notation add_symbol := (add_symbol is_letter is_digit itoa).
 Notation run := (run is_letter is_digit itoa).
 Notation numbered := (numbered itoa).
 Notation ident_char := (ident_char is_letter is_digit).
+Notation add_op := (add_op is_letter is_digit itoa).
+Notation run_ops := (run_ops is_letter is_digit itoa).
 
 (* ---------- keywords ---------- *)
 Lemma keywords_lower w : is_keyword w = true -> forallb is_lower w = true /\ w <> [].
@@ -358,6 +360,116 @@ Proof.
   - rewrite (Permutation_length (sort_strs_perm _)). unfold keys. apply map_length.
   - eapply Permutation_NoDup; [apply Permutation_sym, sort_strs_perm|auto].
 Qed.
+(* ---------- the general operations (Name.Path, invalid types) ---------- *)
+(* the invariant in the presence of reserved names: name -> path is the inverse of path -> name on
+   every non-empty path; a reserved name maps to the empty path and is nobody's alias *)
+Definition Inv2 (t : tracker) : Prop :=
+  (forall p n, lookup p (p2n t) = Some n -> lookup n (n2p t) = Some p) /\
+  (forall n p, lookup n (n2p t) = Some p -> p <> [] -> lookup p (p2n t) = Some n) /\
+  (forall p n, lookup p (p2n t) = Some n -> valid_alias t n = true) /\
+  lookup [] (p2n t) = None /\
+  NoDup (keys (p2n t)).
+
+Lemma inv2_init v2 l : Inv2 (init v2 l).
+Proof. unfold Inv2, init; simpl. repeat split; try discriminate. constructor. Qed.
+
+Lemma top_key_nonempty pkg path : pkg <> [] -> top_key pkg path <> [].
+Proof. unfold top_key. destruct path; [auto|discriminate]. Qed.
+
+Theorem add_op_never_panics t o : add_op t o <> None.
+Proof.
+  destruct o as [pkg path|pkg b]; cbn [Tracker.add_op].
+  - destruct (str_eqb (localpkg t) pkg); [discriminate|]. destruct pkg; [discriminate|].
+    destruct (lookup _ (p2n t)); [discriminate|].
+    pose proof (local_name_never_panics t (n :: pkg)) as H. destruct (local_name t (n :: pkg)); [discriminate|congruence].
+  - destruct (str_eqb (localpkg t) pkg); [discriminate|]. destruct b; [discriminate|]. destruct (lookup pkg (n2p t)); discriminate.
+Qed.
+
+Theorem inv2_step t o t' : Inv2 t -> add_op t o = Some t' -> Inv2 t'.
+Proof.
+  intros (H1 & H2 & Hok & Hempty & Hnd). destruct o as [pkg path|pkg b]; cbn [Tracker.add_op].
+  - destruct (str_eqb (localpkg t) pkg); [intros E; inversion E; subst; repeat split; auto|].
+    destruct pkg as [|c pkg']; [intros E; inversion E; subst; repeat split; auto|].
+    set (key := top_key (c :: pkg') path). assert (Hkey : key <> []) by (apply top_key_nonempty; discriminate).
+    destruct (lookup key (p2n t)) eqn:Hl; [intros E; inversion E; subst; repeat split; auto|].
+    destruct (local_name t (c :: pkg')) as [name|] eqn:Hn; [|discriminate]. intros E; inversion E; subst; clear E.
+    apply local_name_ok in Hn. destruct Hn as [Htaken [Hid Hkw]].
+    assert (Hfree : lookup name (n2p t) = None).
+    { unfold taken in Htaken. apply orb_false_iff in Htaken. destruct Htaken as [H _].
+      destruct (lookup name (n2p t)); [discriminate|reflexivity]. }
+    assert (Hleaf : (ver2 t && str_eqb name (local_leaf t)) = false).
+    { unfold taken in Htaken. apply orb_false_iff in Htaken. tauto. }
+    unfold Inv2; simpl. split; [|split; [|split; [|split]]].
+    + intros p n. destruct (str_eqb_spec p key) as [->|Hp].
+      * rewrite lookup_set_same. intros H; inversion H; subst. apply lookup_set_same.
+      * rewrite lookup_set_other by auto. intros H. pose proof (H1 _ _ H) as H'.
+        destruct (str_eqb_spec n name) as [->|Hnn]; [congruence|]. rewrite lookup_set_other by auto. exact H'.
+    + intros n p. destruct (str_eqb_spec n name) as [->|Hnn].
+      * rewrite lookup_set_same. intros H _; inversion H; subst. apply lookup_set_same.
+      * rewrite lookup_set_other by auto. intros H Hp. pose proof (H2 _ _ H Hp) as H'.
+        destruct (str_eqb_spec p key) as [->|Hpk]; [congruence|]. rewrite lookup_set_other by auto. exact H'.
+    + intros p n. unfold Tracker.valid_alias, local_leaf. simpl.
+      destruct (str_eqb_spec p key) as [->|Hp].
+      * rewrite lookup_set_same. intros H; inversion H; subst.
+        rewrite Hid, Hkw. simpl. unfold local_leaf in Hleaf. rewrite Hleaf. reflexivity.
+      * rewrite lookup_set_other by auto. intros H. apply Hok in H. exact H.
+    + rewrite lookup_set_other by auto. exact Hempty.
+    + apply set_keys_NoDup; auto.
+  - destruct (str_eqb (localpkg t) pkg); [intros E; inversion E; subst; repeat split; auto|].
+    destruct b; [intros E; inversion E; subst; repeat split; auto|].
+    destruct (lookup pkg (n2p t)) eqn:Hl; intros E; inversion E; subst; clear E; [repeat split; auto|].
+    unfold Inv2; simpl. split; [|split; [|split; [|split]]]; auto.
+    + intros p n H. pose proof (H1 _ _ H) as H'. destruct (str_eqb_spec n pkg) as [->|Hnn]; [congruence|].
+      rewrite lookup_set_other by auto. exact H'.
+    + intros n p. destruct (str_eqb_spec n pkg) as [->|Hnn].
+      * rewrite lookup_set_same. intros H Hp; inversion H; subst. congruence.
+      * rewrite lookup_set_other by auto. apply H2.
+Qed.
+
+Theorem inv2_reachable ops : forall t t', Inv2 t -> run_ops t ops = Some t' -> Inv2 t'.
+Proof.
+  induction ops as [|o ops IH]; simpl; intros t t' Hi H; [inversion H; subst; auto|].
+  destruct (add_op t o) as [t0|] eqn:Ha; [|discriminate].
+  apply (IH t0 t'); [eapply inv2_step; eauto | exact H].
+Qed.
+Theorem run_ops_never_panics ops : forall t, run_ops t ops <> None.
+Proof.
+  induction ops as [|o ops IH]; simpl; intros t; [discriminate|].
+  pose proof (add_op_never_panics t o) as H. destruct (add_op t o); [apply IH|congruence].
+Qed.
+
+(* in the property's words *)
+Theorem inv2_lookups_inverse t : Inv2 t -> forall p n, lookup p (p2n t) = Some n -> path_of t n = Some p.
+Proof. intros (H1 & _) p n H. exact (H1 _ _ H). Qed.
+Theorem inv2_injective t : Inv2 t -> forall p q n, lookup p (p2n t) = Some n -> lookup q (p2n t) = Some n -> p = q.
+Proof. intros (H1 & _) p q n Hp Hq. apply H1 in Hp, Hq. congruence. Qed.
+(* a reserved name (it maps to the empty path) is nobody's alias *)
+Theorem inv2_reserved_not_alias t : Inv2 t -> forall n, path_of t n = Some [] -> forall p, lookup p (p2n t) <> Some n.
+Proof.
+  intros (H1 & _ & _ & Hempty & _) n Hn p Hp. pose proof (H1 _ _ Hp) as Hq. unfold path_of in Hn. rewrite Hn in Hq.
+  inversion Hq; subst. rewrite Hempty in Hp. discriminate.
+Qed.
+Theorem op_alias_stable t o t' p n : add_op t o = Some t' -> lookup p (p2n t) = Some n -> lookup p (p2n t') = Some n.
+Proof.
+  destruct o as [pkg path|pkg b]; cbn [Tracker.add_op].
+  - destruct (str_eqb (localpkg t) pkg); [intros E; inversion E; subst; auto|].
+    destruct pkg as [|c pkg']; [intros E; inversion E; subst; auto|].
+    destruct (lookup (top_key (c :: pkg') path) (p2n t)) eqn:Hl; [intros E; inversion E; subst; auto|].
+    destruct (local_name t (c :: pkg')); [|discriminate]. intros E; inversion E; subst. simpl. intros Hp.
+    rewrite lookup_set_other; auto. intros ->. congruence.
+  - destruct (str_eqb (localpkg t) pkg); [intros E; inversion E; subst; auto|].
+    destruct b; [intros E; inversion E; subst; auto|].
+    destruct (lookup pkg (n2p t)); intros E; inversion E; subst; auto.
+Qed.
+Theorem ops_alias_stable ops : forall t t' p n, run_ops t ops = Some t' -> lookup p (p2n t) = Some n -> lookup p (p2n t') = Some n.
+Proof.
+  induction ops as [|o ops IH]; simpl; intros t t' p n H Hl; [inversion H; subst; auto|].
+  destruct (add_op t o) as [t0|] eqn:Ha; [|discriminate]. eapply IH; eauto. eapply op_alias_stable; eauto.
+Qed.
+(* AddSymbol with Path = Package is the old operation *)
+Theorem add_symbol_is_op t pkg : add_symbol t pkg = add_op t (TSym pkg []).
+Proof. reflexivity. Qed.
+
 End Proofs.
 
 (* ---------- the executable instance satisfies the contracts ---------- *)
